@@ -101,9 +101,9 @@ let () =
       Buffer.add_string buf (" id=" ^ (if rc = W_Authenticated then creds_str (get_identity !a) else "N"));
       Buffer.add_string buf (" unused=" ^ (if rc = W_Authenticated || rc = W_NeedDisconnect
                                            then (match unused_bytes !a with Some b -> hex_of_bytes b | None -> "N") else "N"));
-      Buffer.add_string buf (" fdneg=" ^ (if !a.a_fd_negotiated then "1" else "0"));
-      Buffer.add_string buf (" st=" ^ state_name !a.a_state ^ " fail=" ^ dec_of_n !a.a_failures
-                             ^ " mech=" ^ (match !a.a_mech with None -> "-" | Some EXTERNAL -> "E" | Some COOKIE_SHA1 -> "C" | Some ANONYMOUS -> "A"));
+      Buffer.add_string buf (" fdneg=" ^ (if !a.a_core.a_fd_negotiated then "1" else "0"));
+      Buffer.add_string buf (" st=" ^ state_name !a.a_core.a_state ^ " fail=" ^ dec_of_n !a.a_core.a_failures
+                             ^ " mech=" ^ (match !a.a_core.a_mech with None -> "-" | Some EXTERNAL -> "E" | Some COOKIE_SHA1 -> "C" | Some ANONYMOUS -> "A"));
       if !fuel_out then "?out-of-fuel" else Buffer.contents buf);
   reg "sha1m" (fun [h] -> hex_of_bytes (hex_encode (sha1 (bytes_of_hex h))));
   reg "hexdecm" (fun [h] -> let (d, e) = hex_decode (bytes_of_hex h) in string_of_int (int_of_n e) ^ " " ^ hex_of_bytes d);
